@@ -112,6 +112,11 @@ def _release_lock_on_arr_writeability(arr: np.ndarray):
     writeability restored.
     """
     arr_id = id(arr)
+    if not array_is_tracked(arr):
+        # e.g. a natively read-only array. A lock-count that was left behind
+        # under this ID by an array that no longer exists must not be applied
+        # to it.
+        return
     num_active_ops = _array_counter[arr_id]
 
     if num_active_ops == 1:
